@@ -30,6 +30,9 @@ type VWorld struct {
 	Pool   []model.PoolItem
 	Hists  int
 	Bm     *BackupManager // lazily created by the backup scenarios (one cursor per world, like one per hub)
+	// RealBus: the dataset manager (and the job runner on top) get the real event bus, a new one at every start
+	RealBus bool
+	Bus     EventBus
 }
 
 // VScratchBase returns a scratch directory base outside /repo and /verif.
@@ -53,8 +56,10 @@ func VNewScratchDir(tag string) string {
 	return dir
 }
 
-func VOpenWorld(dir string) *VWorld {
-	w := &VWorld{Dir: dir}
+func VOpenWorld(dir string) *VWorld { return VOpenWorldBus(dir, false) }
+
+func VOpenWorldBus(dir string, realBus bool) *VWorld {
+	w := &VWorld{Dir: dir, RealBus: realBus}
 	w.Env = &conf.Config{Logger: zap.NewNop().Sugar(), StoreLocation: filepath.Join(dir, "store")}
 	w.open()
 	return w
@@ -62,7 +67,15 @@ func VOpenWorld(dir string) *VWorld {
 
 func (w *VWorld) open() {
 	w.Store = NewStore(w.Env, &statsd.NoOpClient{})
-	w.Dsm = NewDsManager(w.Env, w.Store, NoOpBus())
+	w.Bus = NoOpBus()
+	if w.RealBus {
+		b, err := NewBus(w.Env)
+		if err != nil {
+			panic(err)
+		}
+		w.Bus = b
+	}
+	w.Dsm = NewDsManager(w.Env, w.Store, w.Bus)
 	p, err := w.Store.NamespaceManager.AssertPrefixMappingForExpansion(VNamespace)
 	if err != nil {
 		panic(err)
@@ -372,4 +385,22 @@ func VNsTable(s *Store) map[string]string {
 		out[k] = v
 	}
 	return out
+}
+
+// VBusState: what the event bus would deliver: the registered topics, and per subscriber the topics it receives
+// (read through the bus library's own accessors; nothing is emitted).
+func (w *VWorld) VBusState() (topics []string, subs map[string][]string) {
+	subs = map[string][]string{}
+	eb, ok := w.Bus.(*MEventBus)
+	if !ok {
+		return nil, subs
+	}
+	topics = append(topics, eb.Bus.Topics()...)
+	sort.Strings(topics)
+	for _, k := range eb.Bus.HandlerKeys() {
+		l := append([]string{}, eb.Bus.HandlerTopicSubscriptions(k)...)
+		sort.Strings(l)
+		subs[k] = l
+	}
+	return
 }
